@@ -18,7 +18,7 @@ import (
 
 type nullLogger struct{ n int }
 
-func (l *nullLogger) Print(args ...interface{}) { l.n++ }
+func (l *nullLogger) Print(args ...interface{}) { l.n++; _ = fmt.Sprint(args...) }
 func (l *nullLogger) Printf(format string, args ...interface{}) {
 	l.n++
 	_ = fmt.Sprintf(format, args...)
@@ -138,13 +138,14 @@ func c16HighKnown() uint16 {
 var c16Names = []string{"K", "KU1", "KU2", "UAx2", "UBx2", "REDEF", "Zx2", "ZDEV", "DEV", "UNDEF", "BADDEF", "UZx2", "UDEV", "TS", "CK", "CU", "KHI", "KSES", "ZSTR", "TIE"}
 
 type c16Replay struct {
-	Word    []int  `json:"word"`
-	Names   string `json:"word_names"`
-	Cut     int    `json:"cut"`
-	Options string `json:"options"`
-	Hex     string `json:"stream_hex"`
-	Generic bool   `json:"generic,omitempty"`
-	Chain   []int  `json:"chain_member_lengths,omitempty"`
+	Word        []int  `json:"word"`
+	Names       string `json:"word_names"`
+	Cut         int    `json:"cut"`
+	Options     string `json:"options"`
+	Hex         string `json:"stream_hex"`
+	Generic     bool   `json:"generic,omitempty"`
+	Chain       []int  `json:"chain_member_lengths,omitempty"`
+	AfterFileId bool   `json:"after_file_id,omitempty"`
 }
 
 func init() {
@@ -157,6 +158,12 @@ func init() {
 		Replay: func(raw json.RawMessage) (string, error) {
 			var r c16Replay
 			json.Unmarshal(raw, &r)
+			if r.AfterFileId {
+				if msg := c16AfterFileIdCheck(vx.UnHex(r.Hex)); msg != "" {
+					return "", fmt.Errorf("%s: %s", r.Names, msg)
+				}
+				return "ok", nil
+			}
 			if r.Generic && len(r.Chain) > 0 {
 				data := vx.UnHex(r.Hex)
 				base := safeDecodeChained(bytes.NewReader(data))
@@ -405,6 +412,7 @@ func c16Check(word []int, cut int, onState func(h uint64)) (string, string) {
 func runC16(w *vx.W) {
 	c16GenericFamilies(w)
 	c16Chains(w)
+	c16AfterFileId(w)
 	maxLen := 3
 	if !w.Quick() {
 		maxLen = 4
@@ -635,6 +643,75 @@ func c16GenericFamilies(w *vx.W) {
 			report(it.Name, it.B, msg, class)
 		}
 	}
+}
+
+// ---- failure right after the file_id record: a file type the library rejects (invalid, unassigned, manufacturer
+// range) or accepts, with an unlisted field inside file_id. Whenever a File is returned and an option is set, its
+// list is there and counts what was completed (the file_id record), whatever happens next.
+func c16AfterFileId(w *vx.W) {
+	var idx int64
+	for _, ft := range []byte{4, 0xFF, 200, 0xF7, 0xFE, 40, 0} {
+		for o := 0; o < 2; o++ {
+			idx++
+			if !w.Mine(idx) {
+				continue
+			}
+			d := fitmodel.Def{Local: 0, Big: o == 1, Global: 0, Fields: []fitmodel.FieldDef{{Num: 0, Size: 1, Base: fitmodel.Enum}, {Num: 200, Size: 1, Base: fitmodel.Uint8}}}
+			u := fitmodel.Def{Local: 1, Global: 0xFF00, Fields: []fitmodel.FieldDef{{Num: 1, Size: 1, Base: fitmodel.Uint8}}}
+			stream := fitmodel.File(fitmodel.DefaultHeader, d.Bytes(), fitmodel.Data(0, []byte{ft, 7}), u.Bytes(), fitmodel.Data(1, []byte{1}), recordDef(2, false).Bytes(), recordData(2, false, 1000000000, 60, 5))
+			w.Eval(int64(len(c16Configs)))
+			w.Trace(int64(len(c16Configs)))
+			w.Fam("failure-after-file_id", 1)
+			if msg := c16AfterFileIdCheck(stream); msg != "" {
+				w.Violation("after-file_id", fmt.Sprintf("file type byte %d (big-endian=%v): %s", ft, o == 1, msg), c16Replay{Names: fmt.Sprintf("file type %d", ft), Hex: vx.Hex(stream), Generic: true, AfterFileId: true})
+			}
+		}
+	}
+}
+
+// c16AfterFileIdCheck: a stream = file_id with unlisted field 200, one record of unknown message 0xFF00, one record.
+func c16AfterFileIdCheck(stream []byte) string {
+	base := c16Decode(stream, 0)
+	for cfg := 1; cfg < len(c16Configs); cfg++ {
+		ob := c16Decode(stream, cfg)
+		bits := cfgBits(cfg)
+		msg := ""
+		switch {
+		case ob.panicked != "":
+			msg = "panic: " + ob.panicked
+		case ob.errText != base.errText || ob.hasFile != base.hasFile || ob.content != base.content || ob.consumed != base.consumed:
+			msg = fmt.Sprintf("options change the outcome: err %q vs %q, File %v vs %v", ob.errText, base.errText, ob.hasFile, base.hasFile)
+		case ob.hasFile && bits&2 != 0:
+			n := -1
+			for _, x := range ob.uf {
+				if x.MesgNum == 0 && x.FieldNum == 200 {
+					n = x.Count
+				}
+			}
+			if ob.uf == nil || n != 1 {
+				msg = fmt.Sprintf("UnknownFields = %v: the completed file_id record carried unlisted field 200 once", ob.uf)
+			}
+		}
+		if msg == "" && ob.hasFile && bits&4 != 0 {
+			want := 0
+			if base.errText == "" {
+				want = 1
+			}
+			got := 0
+			for _, x := range ob.um {
+				if x.MesgNum == 0xFF00 {
+					got = x.Count
+				}
+			}
+			if ob.um == nil || got != want {
+				msg = fmt.Sprintf("UnknownMessages = %v: %d record(s) of message 0xFF00 were completed", ob.um, want)
+			}
+		}
+		if msg != "" {
+			return "options " + optName(cfg) + ": " + msg
+		}
+	}
+	return ""
 }
 
 // ---- chains: DecodeChained with every option configuration over ordered pairs of mix-family files; the lists of
